@@ -591,7 +591,20 @@ func genC08(r *Rand, tier string) []Case {
 			q.From.Fn = "mix"
 			tags = append(tags, "mix")
 		}
-		out = append(out, mkCase(doc, q, tags, true))
+		c := mkCase(doc, q, tags, true)
+		if nn, ok := doc["n"].([]any); ok && len(nn) >= 1 && r.Chance(20) {
+			// the same inner array (one object, not a copy) appears more than once
+			k := r.Intn(len(nn))
+			if inner, ok := nn[k].([]any); ok && len(inner) > 0 {
+				doc["n"] = append(append([]any{}, nn...), deepCopy(inner), deepCopy(inner))
+				c = mkCase(doc, q, append(tags, "shared-inner-arrays"), true)
+				in := c.Input.(engIn)
+				in.ShareEqual = true
+				c.Input = in
+				c.Key += "|shared"
+			}
+		}
+		out = append(out, c)
 	}
 	// a few documents with LARGE inner arrays next to small ones: each inner result must stay at its position
 	for i := 0; i < 2; i++ {
